@@ -76,6 +76,10 @@ type bodyStream struct {
 	chunkLeft       int
 	// whether the chunk has reached the EOF
 	chunkEOF bool
+	// The stream's own copy of the prefetched bytes. They were read into the body buffer of the
+	// request/response, and that buffer is written again while the stream is still being read
+	// (Body() on a stream that wraps this one, SetBody, AppendBody ...).
+	prefetched []byte
 }
 
 func ReadBodyWithStreaming(zr network.Reader, contentLength, maxBodySize int, dst []byte) (b []byte, err error) {
@@ -113,7 +117,8 @@ func ReadBodyWithStreaming(zr network.Reader, contentLength, maxBodySize int, ds
 
 func AcquireBodyStream(b *bytebufferpool.ByteBuffer, r network.Reader, t *protocol.Trailer, contentLength int) io.Reader {
 	rs := bodyStreamPool.Get().(*bodyStream)
-	rs.prefetchedBytes = bytes.NewReader(b.B)
+	rs.prefetched = append(rs.prefetched[:0], b.B...)
+	rs.prefetchedBytes = bytes.NewReader(rs.prefetched)
 	rs.reader = r
 	rs.contentLength = contentLength
 	rs.trailer = t
@@ -386,6 +391,9 @@ func ReleaseBodyStream(requestReader io.Reader) (err error) {
 
 func (rs *bodyStream) reset() {
 	rs.prefetchedBytes = nil
+	if cap(rs.prefetched) > 2*maxContentLengthInStream {
+		rs.prefetched = nil
+	}
 	rs.offset = 0
 	rs.reader = nil
 	rs.trailer = nil
